@@ -70,6 +70,9 @@ type FnCtx struct {
 	axiomsDone map[*AxiomDef]bool
 	trustedCalls map[string]int
 	pendingAxioms []*PredDef
+	atomicLoads []Term
+	atomicsHavocked bool
+	pinned    bool
 	guards    []guardSpec
 	guardObls map[string][]Term
 }
